@@ -95,14 +95,8 @@ class SendMessageC01(SendMessageSetup):
             I.oblige(self.name("at_most_one_request_with_this_id_written"), z3.IntVal(0) + reqs <= 1)
 
 
-def the_contract(I):
-    return I.c01
-
-
 class SendMessageC01Reg(SendMessageC01):
-    def setup(self, I):
-        I.c01 = self
-        return super().setup(I)
+    pass
 
 
 class C01(Check):
@@ -131,7 +125,7 @@ class C01(Check):
                 SendMessageC01Reg(True, True, id_mode="given")]
 
     def loop_invariants(self):
-        return {(AWAIT_KEY, 0): SM.await_loop_invariant(the_contract)}
+        return {(AWAIT_KEY, 0): SM.await_loop_invariant("C01")}
 
     def canaries(self):
         return [
